@@ -1,0 +1,122 @@
+//go:build verif
+
+// Contracts for the TiKV adapter, checked by /verif/kbv (build tag "verif"). Comments only.
+// The TiKV client is modelled by ghost counters: txn_writes buffered writes, txn_commits /
+// txn_rollbacks calls; get_missing tells whether the last Get found nothing.
+
+package tikv
+
+//@ ghost txn_writes Int
+//@ ghost txn_commits Int
+//@ ghost txn_rollbacks Int
+//@ ghost get_missing Bool
+//@ ghost get_failed Bool
+
+// ---- assumed contract of the client library ----
+//@ func @github.com/tikv/client-go/v2/txnkv/transaction.(*KVTxn).Get(ctx, k) (val, err)
+//@   assumed
+//@   modifies ghost.get_missing ghost.get_failed
+//@   ensures [found-or-not] get_failed == (err != nil) && get_missing == (err != nil && tikv_not_found(err))
+//@   ensures [foreign-error] err != nil ==> !err_is(err, storage.ErrCASFailed) && !err_is(err, storage.ErrKeyNotFound) && !err_is(err, storage.ErrUncertainResult)
+//@ func @github.com/tikv/client-go/v2/txnkv/transaction.(*KVTxn).Set(k, v) (err)
+//@   assumed
+//@   modifies ghost.txn_writes
+//@   ensures [buffered] err == nil ==> txn_writes == old(txn_writes)+1
+//@   ensures [foreign-error] err != nil ==> txn_writes == old(txn_writes) && !err_is(err, storage.ErrCASFailed) && !err_is(err, storage.ErrUncertainResult)
+//@ func @github.com/tikv/client-go/v2/txnkv/transaction.(*KVTxn).Delete(k) (err)
+//@   assumed
+//@   modifies ghost.txn_writes
+//@   ensures [buffered] err == nil ==> txn_writes == old(txn_writes)+1
+//@   ensures [foreign-error] err != nil ==> txn_writes == old(txn_writes) && !err_is(err, storage.ErrCASFailed) && !err_is(err, storage.ErrUncertainResult)
+//@ func @github.com/tikv/client-go/v2/txnkv/transaction.(*KVTxn).Commit(ctx) (err)
+//@   assumed
+//@   modifies ghost.txn_commits
+//@   ensures [counted] txn_commits == old(txn_commits)+1
+//@   ensures [foreign-error] err != nil ==> !err_is(err, storage.ErrCASFailed) && !err_is(err, storage.ErrUncertainResult) && !err_is(err, storage.ErrKeyNotFound)
+//@ func @github.com/tikv/client-go/v2/txnkv/transaction.(*KVTxn).Rollback() (err)
+//@   assumed
+//@   modifies ghost.txn_rollbacks
+//@   ensures [counted] txn_rollbacks == old(txn_rollbacks)+1
+//@ func @github.com/tikv/client-go/v2/error.IsErrNotFound(err) (result)
+//@   assumed
+//@   pure
+//@   ensures [def] result == (err != nil && tikv_not_found(err))
+//@ func @github.com/tikv/client-go/v2/error.IsErrWriteConflict(err) (result)
+//@   assumed
+//@   pure
+//@   ensures [def] result == (err != nil && tikv_write_conflict(err))
+
+//@ func @github.com/kubewharf/kubebrain/pkg/storage.NewErrConflict(idx, key, val) (result)
+//@   assumed
+//@   ensures [conflict] typeis(result, "*storage.Conflict") && asptr(result, "*storage.Conflict") != nil && err_is(result, storage.ErrCASFailed) && !err_is(result, storage.ErrUncertainResult) && !err_is(result, storage.ErrKeyNotFound)
+//@ func @github.com/kubewharf/kubebrain/pkg/storage.NewErrUncertainResult(originErr) (result)
+//@   assumed
+//@   ensures [uncertain] typeis(result, "*storage.errUncertainResult") && err_is(result, storage.ErrUncertainResult) && (err_is(result, storage.ErrCASFailed) == err_is(originErr, storage.ErrCASFailed))
+
+// ---- the operations buffered by a batch: each is a closure run by Commit ----
+//@ pred wf_batch(b) = b != nil && b.txn != nil
+
+// CAS: takes effect exactly when the key holds oldVal; a failed condition -- including a missing
+// key -- is reported as a failed condition (matches ErrCASFailed), never as some other error
+//@ func (*batch).CAS$1(ctx) (err)
+//@   props C11 C12
+//@   requires wf_batch(b)
+//@   modifies inferred:(*batch).CAS$1
+//@   ensures [never-an-unknown-outcome] err != nil ==> !err_is(err, storage.ErrUncertainResult)
+//@   ensures [missing-key-is-a-failed-condition] get_missing ==> err_is(err, storage.ErrCASFailed) && txn_writes == old(txn_writes)
+//@   ensures [success-writes-once] err == nil ==> txn_writes == old(txn_writes)+1 && !get_failed
+//@   ensures [failure-writes-nothing] err != nil ==> txn_writes == old(txn_writes)
+//@   ensures [other-errors-are-not-conditions] get_failed && !get_missing ==> !err_is(err, storage.ErrCASFailed)
+
+//@ func (*batch).PutIfNotExist$1(ctx) (err)
+//@   props C11 C12
+//@   requires wf_batch(b)
+//@   modifies inferred:(*batch).PutIfNotExist$1
+//@   ensures [never-an-unknown-outcome] err != nil ==> !err_is(err, storage.ErrUncertainResult)
+//@   ensures [present-key-is-a-failed-condition] !get_failed ==> err_is(err, storage.ErrCASFailed) && txn_writes == old(txn_writes)
+//@   ensures [success-writes-once] err == nil ==> txn_writes == old(txn_writes)+1 && get_missing
+//@   ensures [failure-writes-nothing] err != nil ==> txn_writes == old(txn_writes)
+//@   ensures [other-errors-are-not-conditions] get_failed && !get_missing ==> !err_is(err, storage.ErrCASFailed)
+
+//@ func (*batch).Put$1(ctx) (err)
+//@   props C11
+//@   requires wf_batch(b)
+//@   modifies inferred:(*batch).Put$1
+//@   ensures [never-an-unknown-outcome] err != nil ==> !err_is(err, storage.ErrUncertainResult)
+//@   ensures [writes-once-or-fails] (err == nil ==> txn_writes == old(txn_writes)+1) && (err != nil ==> txn_writes == old(txn_writes) && !err_is(err, storage.ErrCASFailed))
+
+//@ func (*batch).Del$1(ctx) (err)
+//@   props C11
+//@   requires wf_batch(b)
+//@   modifies inferred:(*batch).Del$1
+//@   ensures [never-an-unknown-outcome] err != nil ==> !err_is(err, storage.ErrUncertainResult)
+//@   ensures [writes-once-or-fails] (err == nil ==> txn_writes == old(txn_writes)+1) && (err != nil ==> txn_writes == old(txn_writes) && !err_is(err, storage.ErrCASFailed))
+
+// any buffered operation, as Commit sees it
+//@ func dyn:func(ctxcontext.Context)error(ctx) (err)
+//@   assumed
+//@   modifies ghost.txn_writes ghost.get_missing ghost.get_failed
+//@   ensures [never-an-unknown-outcome] err != nil ==> !err_is(err, storage.ErrUncertainResult)
+
+// the deferred rollback of Commit
+//@ func (*batch).Commit$1()
+//@   props C11 C09
+//@   requires wf_batch(b)
+//@   modifies ghost.txn_rollbacks
+//@   ensures [rollback-iff-error] (err != nil ==> txn_rollbacks == old(txn_rollbacks)+1) && (err == nil ==> txn_rollbacks == old(txn_rollbacks))
+
+// Commit: the client transaction is committed only if every buffered operation succeeded
+// (otherwise nothing is applied and the transaction is rolled back); a write conflict is a failed
+// condition; a listed indeterminate error is wrapped as "unknown outcome" and is then neither a
+// success nor a failed condition
+//@ func (*batch).Commit(ctx) (err)
+//@   props C11 C09
+//@   nosafety
+//@   requires wf_batch(b)
+//@   modifies inferred:(*batch).Commit
+//@   ensures [all-or-nothing] txn_commits == old(txn_commits) || (txn_commits == old(txn_commits)+1)
+//@   ensures [an-error-rolls-back] err != nil ==> txn_rollbacks == old(txn_rollbacks)+1
+//@   ensures [success-is-a-commit] err == nil ==> txn_commits == old(txn_commits)+1 && txn_rollbacks == old(txn_rollbacks)
+//@   ensures [unknown-outcome-is-no-conflict] err_is(err, storage.ErrUncertainResult) ==> !err_is(err, storage.ErrCASFailed) && txn_commits == old(txn_commits)+1
+//@   loop 0 invariant [ops] txn_commits == old(txn_commits) && txn_rollbacks == old(txn_rollbacks) && wf_batch(b)
+//@   loop 1 invariant [classified] err != nil && !err_is(err, storage.ErrCASFailed) && txn_commits == old(txn_commits)+1 && txn_rollbacks == old(txn_rollbacks) && wf_batch(b)
